@@ -245,7 +245,14 @@ def run(pid, tier, seed, replay=None):
         try:
             if replay:
                 rp = json.load(open(replay, encoding="utf-8"))
-                rc = [c for c in rp.get("cases", [])]
+                rc = [c for c in rp.get("cases", []) if isinstance(c, dict) and "op" in c and "backend" in c]
+                if not rc:
+                    # a generated-program / configuration failure: re-run the whole check on the current tree
+                    print("replay: no single operation recorded; re-running the check")
+                    cases, hist = correspond(prop, tier, seed, backends)
+                    if hasattr(prop, "extra"):
+                        extra_cov, extra_fail, extra_broken = prop.extra(tier, seed)
+                        broken += extra_broken
                 for be in backends:
                     ls = [c["op"] for c in rc if c["backend"] == be]
                     if ls:
@@ -298,6 +305,11 @@ def run(pid, tier, seed, replay=None):
             new_fail.append(f)
     exit_code = 0
     if new_fail:
+        # report the simplest failing case first: shortest operation line (fewest digits / simplest amounts)
+        line_cases = [c for c in new_fail if isinstance(c, Case)]
+        if line_cases:
+            simplest = min(line_cases, key=lambda c: (len(c.line), c.line))
+            new_fail = [simplest] + [c for c in new_fail if c is not simplest]
         first = prop.shrink(new_fail[0]) if hasattr(prop, "shrink") and isinstance(new_fail[0], Case) else new_fail[0]
         payload = dict(property=pid, kind="oracle-failure-on-implementation", tier=tier, seed=seed,
                        cases=[(c.as_dict() if isinstance(c, Case) else c) for c in ([first] + new_fail[1:20])],
